@@ -64,6 +64,11 @@ pub fn families(a: &Args, rng: &mut Rng) -> Vec<Fam> {
     for t in adjacent_range_family(&pool) {
         v.push(Fam { t, fam: "adjacent-ranges" });
     }
+    for (i, t) in complement_inside_family(&pool).into_iter().enumerate() {
+        if a.thorough() || i % 2 == (a.seed as usize) % 2 || i < 40 {
+            v.push(Fam { t, fam: "complement-inside" });
+        }
+    }
     // construction programs enumerated by TLC (MC_Terms), if the orchestrator generated some
     if let Some(i) = a.rest.iter().position(|x| x == "--terms") {
         let text = std::fs::read_to_string(&a.rest[i + 1]).expect("terms file");
@@ -561,8 +566,168 @@ pub fn drive_c05(a: &Args) {
             }
         }
     }
+    // (A) emptiness of DERIVATIVES, asked after the root was searched on the same manager
+    let mut next_id = fams.len();
+    let mut nderiv = 0;
+    let mut mgr = ReManager::new();
+    for (id, f) in fams.iter().enumerate() {
+        if id % 2 != (a.seed as usize) % 2 || !explore_ok(&f.t) || f.t.has_quot() {
+            continue;
+        }
+        if id % 40 <= 1 {
+            mgr = ReManager::new();
+        }
+        let mut ends = vec![];
+        f.t.ends(&mut ends);
+        let mut letters: Vec<u32> = ends.into_iter().filter(|&x| x <= MAX_CHAR).collect();
+        letters.sort();
+        letters.dedup();
+        if letters.is_empty() {
+            letters.push(0);
+        }
+        let mut words: Vec<Vec<u32>> = vec![];
+        for _ in 0..3 {
+            let n = 1 + rng.below(2) as usize;
+            words.push((0..n).map(|_| *rng.pick(&letters)).collect());
+        }
+        let root = guarded(|| {
+            let e = f.t.build(&mut mgr);
+            if !few_derivatives(&mut mgr, e) {
+                return None;
+            }
+            let _ = mgr.is_empty_re(e);
+            Some(e)
+        });
+        let e = match root {
+            Ok(Some(e)) => e,
+            _ => {
+                mgr = ReManager::new();
+                continue;
+            }
+        };
+        for w in words {
+            let mut t = f.t.clone();
+            for &c in &w {
+                t = T::Quot(c, Box::new(t));
+            }
+            let df = Fam { t: t.clone(), fam: "derivative-after-root" };
+            let r = guarded(|| {
+                let d = mgr.str_derivative(e, &SmtString::from(w.clone()));
+                empty_queries(&mut mgr, d, nderiv % 2 == 0)
+            });
+            nderiv += 1;
+            next_id += 1;
+            match r {
+                Ok(q) => out.emit(empty_record(next_id, &df, q)),
+                Err(msg) => {
+                    out.emit(panic_case(next_id, &df, "is_empty_re/get_string", &msg));
+                    mgr = ReManager::new();
+                    break;
+                }
+            }
+        }
+    }
+    // (B) histories of emptiness queries on one manager: semantically empty / universal terms and their
+    // complements created next to each other, queried in a random order, then all of them once more
+    let fixed = Pool { a: 97, b: 98, c: 99 };
+    let se = semantically_empty_family(&fixed);
+    let rounds = a.sz(250, 4000);
+    let mut nhist = 0;
+    for _ in 0..rounds {
+        let mut mgr = ReManager::new();
+        let k = 3 + rng.below(3) as usize;
+        let mut chosen: Vec<T> = vec![];
+        for _ in 0..k {
+            let x = rng.pick(&se).clone();
+            chosen.push(match rng.below(4) {
+                0 => T::Not(Box::new(x)),
+                1 => match x {
+                    // the operand of a complement: the base term itself
+                    T::Not(y) => *y,
+                    other => other,
+                },
+                _ => x,
+            });
+        }
+        let r = guarded(|| {
+            // sub-terms first, so that the roots are allocated next to each other
+            for t in &chosen {
+                for c in t.children() {
+                    let _ = c.build(&mut mgr);
+                }
+            }
+            let roots: Vec<RegLan> = chosen.iter().map(|t| t.build(&mut mgr)).collect();
+            let mut items: Vec<(T, RegLan)> = vec![];
+            for (t, &e) in chosen.iter().zip(roots.iter()) {
+                items.push((t.clone(), e));
+                items.push((T::Not(Box::new(t.clone())), mgr.complement(e)));
+            }
+            let mut recs = vec![];
+            for pass in 0..2 {
+                let mut order: Vec<usize> = (0..items.len()).collect();
+                for i in (1..order.len()).rev() {
+                    let j = rng.below(i as u64 + 1) as usize;
+                    order.swap(i, j);
+                }
+                for i in order {
+                    let q = empty_queries(&mut mgr, items[i].1, (i + pass) % 2 == 0);
+                    recs.push((items[i].0.clone(), q));
+                }
+            }
+            recs
+        });
+        match r {
+            Ok(recs) => {
+                for (t, q) in recs {
+                    next_id += 1;
+                    nhist += 1;
+                    out.emit(empty_record(next_id, &Fam { t, fam: "emptiness-history" }, q));
+                }
+            }
+            Err(msg) => {
+                next_id += 1;
+                out.emit(panic_case(next_id, &Fam { t: chosen[0].clone(), fam: "emptiness-history" }, "is_empty_re/get_string", &msg));
+            }
+        }
+    }
     let n = out.finish();
-    println!("{{\"family\":\"c05\",\"terms\":{},\"events\":{}}}", fams.len(), n);
+    println!("{{\"family\":\"c05\",\"terms\":{},\"events\":{},\"derivative_queries\":{},\"history_queries\":{}}}", fams.len(), n, nderiv, nhist);
+}
+
+type EmptyQ = (bool, bool, Vec<u32>, bool, bool, bool, bool);
+/// is_empty_re and get_string (in either order) and what the witness is worth
+fn empty_queries(mgr: &mut ReManager, e: RegLan, order_first: bool) -> EmptyQ {
+    let (empty, w) = if order_first {
+        let x = mgr.is_empty_re(e);
+        (x, mgr.get_string(e))
+    } else {
+        let w = mgr.get_string(e);
+        (mgr.is_empty_re(e), w)
+    };
+    match w {
+        None => (empty, false, vec![], false, false, true, e.is_empty()),
+        Some(s) => {
+            let inre = mgr.str_in_re(&s, e);
+            let acc = mgr.compile(e).accepts(&s);
+            let v: Vec<u32> = s.iter().cloned().collect();
+            (empty, true, v, inre, acc, s.is_good(), e.is_empty())
+        }
+    }
+}
+
+fn empty_record(id: usize, f: &Fam, q: EmptyQ) -> Value {
+    let (empty, has_w, w, inre, acc, good, syn_empty) = q;
+    let mut m = base_case(id, f, &f.t);
+    m.insert("op".into(), json!("empty"));
+    m.insert("exact".into(), json!(explore_ok(&f.t)));
+    m.insert("empty".into(), json!(empty));
+    m.insert("syn_empty".into(), json!(syn_empty));
+    m.insert("has_w".into(), json!(has_w));
+    m.insert("w".into(), json!(w));
+    m.insert("w_in_re".into(), json!(inre));
+    m.insert("w_acc".into(), json!(acc));
+    m.insert("w_good".into(), json!(good));
+    Value::Object(m)
 }
 
 /// C18: start_char / start_class
@@ -996,10 +1161,29 @@ pub fn drive_c10(a: &Args) {
             }
         }
     }
-    let n_general = pats.len();
-    pats.extend(literal_pats);
-    let _ = n_general;
-    let pats: Vec<T> = pats.into_iter().filter(|t| !t.has_quot()).map(|t| t.smt_form()).filter(|t| t.cost() <= COST_LIMIT).collect();
+    // a flexible head followed by a short rigid tail: attempts started at different positions reach the same
+    // residual at neighbouring indices (every subject up to length 4 is tried for these)
+    let heads: Vec<T> = vec![
+        T::Not(Box::new(T::Chr(pool.a))), T::Not(Box::new(T::Chr(pool.b))), T::Not(Box::new(T::Str(vec![pool.a, pool.b]))),
+        T::AllChar, T::Opt(Box::new(T::Chr(pool.a))), T::Opt(Box::new(T::Str(vec![pool.b, pool.a]))),
+        T::Star(Box::new(T::Cat2(Box::new(T::Chr(pool.a)), Box::new(T::AllChar)))), T::Rng(pool.a, pool.b),
+        T::Not(Box::new(T::Eps)), T::Star(Box::new(T::Chr(pool.a))), T::Plus(Box::new(T::Str(vec![pool.a, pool.b]))),
+        T::Not(Box::new(T::Cat2(Box::new(T::Chr(pool.a)), Box::new(T::All)))),
+    ];
+    let tails: Vec<T> = vec![
+        T::Str(vec![pool.b, pool.b]), T::Str(vec![pool.a, pool.b]), T::Cat2(Box::new(T::Chr(pool.b)), Box::new(T::AllChar)),
+        T::Cat2(Box::new(T::AllChar), Box::new(T::Chr(pool.b))), T::Chr(pool.a), T::Str(vec![pool.b, pool.a, pool.b]),
+    ];
+    let mut overlap_pats: Vec<T> = vec![];
+    for h in &heads {
+        for t in &tails {
+            overlap_pats.push(T::Cat2(Box::new(h.clone()), Box::new(t.clone())));
+        }
+    }
+    let mut pats: Vec<(T, bool)> = pats.into_iter().map(|t| (t, false)).collect();
+    pats.extend(overlap_pats.into_iter().map(|t| (t, true)));
+    pats.extend(literal_pats.into_iter().map(|t| (t, false)));
+    let pats: Vec<(T, bool)> = pats.into_iter().filter(|t| !t.0.has_quot()).map(|t| (t.0.smt_form(), t.1)).filter(|t| t.0.cost() <= COST_LIMIT).collect();
     let subjects = {
         let mut all: Vec<Vec<u32>> = vec![vec![]];
         let mut fr: Vec<Vec<u32>> = vec![vec![]];
@@ -1025,9 +1209,9 @@ pub fn drive_c10(a: &Args) {
     let chunk = 60;
     let mut k = 0;
     let mut results: Vec<Value> = vec![];
-    let mut dirty: Vec<(usize, T)> = vec![];
+    let mut dirty: Vec<(usize, T, bool)> = vec![];
     while k < njobs {
-        let items: Vec<(usize, T)> = (k..(k + chunk).min(njobs)).map(|i| (i, pats[i].clone())).collect();
+        let items: Vec<(usize, T, bool)> = (k..(k + chunk).min(njobs)).map(|i| (i, pats[i].0.clone(), pats[i].1)).collect();
         if (k / chunk) % 2 == 0 {
             dirty.extend(items);
         } else {
@@ -1066,11 +1250,11 @@ fn literal_of(t: &T) -> Option<Vec<u32>> {
     }
 }
 
-fn run_replace_jobs(items: Vec<(usize, T)>, subjects: Vec<Vec<u32>>, repls: Vec<Vec<u32>>, seed: u64, thorough: bool) -> Vec<Value> {
+fn run_replace_jobs(items: Vec<(usize, T, bool)>, subjects: Vec<Vec<u32>>, repls: Vec<Vec<u32>>, seed: u64, thorough: bool) -> Vec<Value> {
     std::thread::spawn(move || {
         let mut rng = Rng::new(seed);
         let mut out = vec![];
-        for (id, t) in items {
+        for (id, t, all_subjects) in items {
             let mut subjects = subjects.clone();
             if let Some(w) = literal_of(&t) {
                 if w.len() >= 3 {
@@ -1112,7 +1296,7 @@ fn run_replace_jobs(items: Vec<(usize, T)>, subjects: Vec<Vec<u32>>, repls: Vec<
                 // every subject with one replacement (all three in the thorough tier for short subjects)
                 let picks: Vec<&Vec<u32>> = if thorough && s.len() <= 3 { repls.iter().collect() } else { vec![&repls[(si + id) % 3]] };
                 // sample the longer subjects in the quick tier
-                if !thorough && s.len() >= 4 && rng.below(3) != 0 {
+                if !thorough && !all_subjects && s.len() >= 4 && rng.below(3) != 0 {
                     continue;
                 }
                 for u in picks {
